@@ -398,6 +398,11 @@ def tooled(fn):
 def inplace(fn):
     if is_tooled(fn):  # pragma: no cover
         return fn
+    st = getattr(fn, "__ptera_stack__", None)
+    if st is not None and st.instrument_count == 0:
+        # Left by earlier probes, and built for the untooled code: later
+        # probes must start from the tooled function
+        del fn.__ptera_stack__
     new_fn = transform(fn, proceed=proceed)
     try:
         from codefind import code_registry
